@@ -1478,6 +1478,17 @@ def resolve_terms(prog, t, depth=3, _memo=None, assumptions=()):
                     out = ok_payload(args[0])
                 elif a is False and t[1].endswith("unwrap_or") and len(args) > 1:
                     out = args[1]
+            if out is None and assumptions and t[1].split("::")[-1] == "then_some" and "bool" in t[1] and len(args) == 2:
+                # flag.then_some(v): Some(v) when the world says the flag is set, None when it says it is not
+                for pred_, val_ in assumptions:
+                    if isinstance(val_, bool) and pred_ is not None and pred_(args[0]):
+                        out = ("agg", "std::option::Option", "Some", (("fld", "0", args[1]),)) if val_ else ("agg", "std::option::Option", "None", ())
+                        break
+                    if pred_ is None and callable(val_):
+                        v_ = val_(args[0])
+                        if v_ is not None:
+                            out = ("agg", "std::option::Option", "Some", (("fld", "0", args[1]),)) if v_ else ("agg", "std::option::Option", "None", ())
+                            break
             if out is None and assumptions and t[1] in ("std::option::Option::or", "std::result::Result::or") and len(args) == 2:
                 # a.or(b): a when the world says a is Some / Ok, b when it says None / Err
                 a = assumed_ok(assumptions, args[0])
